@@ -84,7 +84,35 @@ def run_one(ctx, case):
         m = ctx.model.arrs({'op': 'conv', 'what': 'symvec', 'x': enc_arr(x), 'uplo': case['uplo']})[0]
         if not close(v.data, m, 1e-12):
             return 'symvec-mismatch-%s: differs from the model' % case['uplo']
+        # every dispatch path of the global function: ndarray, traced UTPM, traced ndarray, method forms
+        from algopy import CGraph, Function
+        for d in range(x.shape[0]):
+            for p_ in range(x.shape[1]):
+                if not close(algopy.symvec(x[d, p_].copy(), case['uplo']), m[d, p_], 1e-12):
+                    return 'symvec-ndarray-%s: algopy.symvec(ndarray) differs from the model' % case['uplo']
+        cg = CGraph()
+        fA = Function(UTPM(x.copy()))
+        fv = algopy.symvec(fA, case['uplo'])
+        fv2 = fA.symvec(case['uplo'])
+        fn = algopy.symvec(Function(x[0, 0].copy()), case['uplo'])
+        fback = algopy.vecsym(fv)
+        cg.trace_off()
+        if not close(fv.x.data, m, 1e-12) or not close(fv2.x.data, m, 1e-12):
+            return 'symvec-traced-%s: algopy.symvec(Function) differs from the model' % case['uplo']
+        if not close(fn.x, m[0, 0], 1e-12):
+            return 'symvec-traced-ndarray-%s: algopy.symvec(Function(ndarray)) differs from the model' % case['uplo']
+        if not np.array_equal(fback.x.data, algopy.vecsym(v).data):
+            return 'vecsym-traced: algopy.vecsym(Function) differs from algopy.vecsym(UTPM)'
+        if not np.array_equal(UTPM.symvec(UTPM(x.copy()), case['uplo']).data, v.data):
+            return 'symvec-method-%s: UTPM.symvec differs from algopy.symvec' % case['uplo']
         A = algopy.vecsym(v)
+        # vecsym(symvec(A, uplo)) is the symmetric matrix the storage convention denotes
+        a_ = x
+        want = {'F': 0.5 * (a_ + a_.transpose(0, 1, 3, 2)),
+                'U': np.triu(a_) + np.triu(a_, 1).transpose(0, 1, 3, 2),
+                'L': np.tril(a_) + np.tril(a_, -1).transpose(0, 1, 3, 2)}[case['uplo']]
+        if not close(A.data, want, 1e-12):
+            return 'symvec-roundtrip-%s: vecsym(symvec(A,%s)) is not the matrix denoted by the stored triangle' % (case['uplo'], case['uplo'])
         if case['uplo'] == 'F' and case['sym']:
             if not np.array_equal(A.data, x):
                 return 'symvec-roundtrip: vecsym(symvec(A)) != A for symmetric A'
